@@ -55,6 +55,15 @@ func (ex *Exec) step(st *State, fc *FnCtx, in ssa.Instruction, pred *ssa.BasicBl
 				for _, f := range ex.wellTyped(v, x.Type(), ex.loadBound(st, p), 0) {
 					st.assume(f)
 				}
+				// a map made by this function whose reference never leaves it is
+				// not what a heap location holds
+				if mt, ok := x.Type().Underlying().(*types.Map); ok {
+					for _, lm := range st.localMaps {
+						if types.Identical(lm.k, mt.Key()) && types.Identical(lm.v, mt.Elem()) {
+							st.assume(not(eq(v, lm.ref)))
+						}
+					}
+				}
 			}
 			st.env[x] = v
 		case token.NOT:
